@@ -85,4 +85,66 @@ StrideMagnitudes == {1, 2, 7, 28, 29, 30, 31, 59, 60, 365, 366, 730, 1461, 36524
 Strides == StrideMagnitudes \cup {0 - k : k \in StrideMagnitudes}
 
 SecondsPerDay == 86400
+
+\* ---- reading a date: the fields "to the second" ---------------------------
+\* what string(d), format_date and date_year .. date_second show of the date
+\* with day number n and second of day s: <<y, m, d, H, M, S>>
+Fields(n, s) ==
+  LET dt == FromDayNumber(n)
+  IN <<dt[1], dt[2], dt[3], s \div 3600, (s \div 60) % 60, s % 60>>
+
+\* a text of eight digits yyyyMMdd read as three fields (they need not be a date)
+TextYear(t)  == t \div 10000
+TextMonth(t) == (t \div 100) % 100
+TextDay(t)   == t % 100
+\* is_valid_date / parse_date: the fields are a date of the years 1..9999
+ValidText(t) == /\ TextYear(t) \in 1..9999
+                /\ ValidDate(TextYear(t), TextMonth(t), TextDay(t))
+TextOf(y, m, d) == y * 10000 + m * 100 + d
+
+\* order of two instants (n1, s1) and (n2, s2) without leaving 32-bit integers
+Before(n1, s1, n2, s2) == n1 < n2 \/ (n1 = n2 /\ s1 < s2)
+
+\* ---- the environment of a process: its time zone --------------------------
+\* Date values carry no zone, so nothing the property names may depend on the
+\* zone of the process (TZ at process start, or changed while it runs).  The
+\* zones are POSIX TZ strings (no tz database needed).  std / dst are minutes
+\* east of Greenwich; a zone with daylight saving time switches at local hour
+\* on[3] of the on[2]-th Sunday (5 = last) of month on[1], and back at local
+\* (daylight) hour off[3] of the off[2]-th Sunday of month off[1].
+Zones == <<
+  [tz |-> "UTC0",                         std |-> 0,    dst |-> 0,    on |-> <<0, 0, 0>>,  off |-> <<0, 0, 0>>],
+  [tz |-> "CET-1CEST,M3.5.0,M10.5.0/3",   std |-> 60,   dst |-> 120,  on |-> <<3, 5, 2>>,  off |-> <<10, 5, 3>>],
+  [tz |-> "EST5EDT,M3.2.0,M11.1.0",       std |-> -300, dst |-> -240, on |-> <<3, 2, 2>>,  off |-> <<11, 1, 2>>],
+  [tz |-> "AEST-10AEDT,M10.1.0,M4.1.0/3", std |-> 600,  dst |-> 660,  on |-> <<10, 1, 2>>, off |-> <<4, 1, 3>>],
+  [tz |-> "<+14>-14",                     std |-> 840,  dst |-> 840,  on |-> <<0, 0, 0>>,  off |-> <<0, 0, 0>>],
+  [tz |-> "<-12>12",                      std |-> -720, dst |-> -720, on |-> <<0, 0, 0>>,  off |-> <<0, 0, 0>>],
+  [tz |-> "NST3:30NDT,M3.2.0,M11.1.0",    std |-> -210, dst |-> -150, on |-> <<3, 2, 2>>,  off |-> <<11, 1, 2>>],
+  [tz |-> "<+0545>-5:45",                 std |-> 345,  dst |-> 345,  on |-> <<0, 0, 0>>,  off |-> <<0, 0, 0>>]
+>>
+NZones == Len(Zones)
+HasDst(z) == Zones[z].std # Zones[z].dst
+
+\* day of the week, closed form: day number 0 is 1899-12-30, a Saturday
+Weekday(n) == (n + 6) % 7                 \* 0 = Sunday .. 6 = Saturday
+
+\* day of the month of the k-th Sunday of month m (k = 5: the last one)
+NthSunday(y, m, k) ==
+  LET first == 1 + ((7 - Weekday(DayNumber(y, m, 1))) % 7)
+      cand  == first + 7 * (k - 1)
+  IN IF cand <= MonthLen(y, m) THEN cand ELSE cand - 7
+
+\* The instants of year y at which a conversion that goes through the clock of
+\* the machine (seconds since 1970 in local time) goes wrong in zone z: local
+\* times that do not exist (the hour skipped when daylight saving time starts)
+\* and local times that occur twice (the hour repeated when it ends).
+\* <<y, m, d, second of day>>; the first and the last second of each of the two hours.
+HazardsOf(z, y) ==
+  IF ~HasDst(z) THEN {}
+  ELSE LET on  == Zones[z].on
+           off == Zones[z].off
+           jump == (Zones[z].dst - Zones[z].std) * 60
+       IN {<<y, on[1], NthSunday(y, on[1], on[2]), on[3] * 3600 + x>> : x \in {0, jump - 1}}
+          \cup
+          {<<y, off[1], NthSunday(y, off[1], off[2]), off[3] * 3600 - jump + x>> : x \in {0, jump - 1}}
 =============================================================================
